@@ -14,7 +14,7 @@ PROP = dict(
         "statements are refuted in Coq (W1, W2) and the same witnesses are replayed on the real chain (known findings F13, F40)",
         "gas accounting, witness checks, manifest permissions, NEO token, contract deployment inside a transaction are not part of the model",
     ],
-    modelled="layering decision, unload callbacks, exception unwinding with the pending-exception register, notification truncation, "
+    modelled="block position (one reused VM, VM.Reset per transaction: block = fold of single transactions), layering decision, unload callbacks, exception unwinding with the pending-exception register, notification truncation, "
              "copy-on-write Policy cache, GAS transfer with payment callback, persist-iff-halt: modelled and tied to the Go code by "
              "differential evaluation (storage dump, balances, Policy value via cache and via storage, VM state, notification list) and by "
              "replica comparison of state roots; not verified by translation",
@@ -22,14 +22,18 @@ PROP = dict(
 META = dict(
     text="Proved in Coq for all call trees (structural induction, no bound): a transaction that does not halt leaves the block-level "
          "state exactly as after the fee deduction (unconditional); the lower store layers and notification prefix are never touched by an "
-         "execution (frame lemma, unconditional); a read-only callee changes nothing (unconditional). Partial: equality of the lazy-layering "
+         "execution (frame lemma, unconditional); a read-only callee changes nothing (unconditional); a block run on one reused VM with the "
+         "per-transaction reset is the fold of single transactions, and a transaction that does not halt is, at any block position, as if it "
+         "were not there (unconditional). Partial: equality of the lazy-layering "
          "machine with ideal transactional frames (storage, native setting, notifications, halt/fault), 'a failed call leaves no trace' and "
          "'before and after are kept' are proved under a syntactic guard (no contract call inside a finally block; for the code as it is also "
          "no un-layered call in a catch block that has a finally block) and refuted without it by two witnesses that are reproduced on the real "
          "chain (known findings F13: callee effects visible to the finally block change HALT into FAULT; F40: effects of a call made from an "
          "exception-entered finally block are dropped). The model is tied to the Go code by running random and fault-injected call trees as "
          "real transactions (NeoVM interpreter contracts, TRY/THROW, call flags, GAS transfers with payment callbacks, Policy setter) on two "
-         "replica chains and comparing with the model inside Coq, plus state-root equality with the block that carries a no-op twin instead of "
+         "replica chains and comparing with the model inside Coq (single transactions with read-only neighbours, and blocks of 2-4 "
+         "transactions whose earlier members end in HALT / uncaught throw / ABORT / ASSERT / fault in a callee / fault or swallowed exception "
+         "in a finally block / out of gas, compared per transaction and against the same transactions one per block), plus state-root equality with the block that carries a no-op twin instead of "
          "the faulted transaction.",
     note="Trusted: Coq kernel and vm_compute, the Go harness incl. its NeoVM interpreter contract, the orchestration script; model and "
          "specification are hand-written and tied by correspondence only. Not modelled: gas, witnesses, permissions, NEO token distribution, "
